@@ -1021,6 +1021,108 @@ def java_constants(repo):
     return resolve(raw), dynamic
 
 
+def java_dynamic_feed(repo, dynamic, cc):
+    """the Java constants WITHOUT initialiser (`public static double R_E;`): `XRayInit()` fills them from the head of xraylib.dat, and
+    java/pr_data_java.c writes that head.  Lexes both ends:
+      slots  the leading `fwrite(&<local>, sizeof(<T>), 1, f);` statements of main() of java/pr_data_java.c, in order, each with the
+             initialiser expression of `<T> <local> = <expr>;` (a local that is assigned again, or whose address escapes, aborts)
+      reads  the leading `<FIELD> = byte_buffer.get(Int|Double)();` statements of XRayInit() of java/Xraylib.java, in order
+    -> dict(slots=[…], reads=[…], feed=[Const named by the Java field, with the value of the C expression of its slot], problems=[…],
+       unevaluated=[slots whose expression is neither a macro name nor a literal]).
+    Anything inside these two regions that is not of the expected shape is a TieError."""
+    crel = 'java/pr_data_java.c'; jrel = 'java/Xraylib.java'
+    ctxt = re.sub(r'//[^\n]*', '', strip_c_comments(open(os.path.join(repo, crel)).read()))
+    m = re.search(r'^\s*int\s+main\s*\([^)]*\)\s*\{', ctxt, flags=re.M)
+    if not m: raise TieError(crel, 0, '', 'main() of the Java data generator not found')
+    body = ctxt[m.end():]; off = ctxt[:m.end()].count('\n')
+    def cline(pos): return off + body[:pos].count('\n') + 1
+    # statements of main in order (macros such as PR_MATD(x); are statements too)
+    locs = {}
+    for d in re.finditer(r'(?<![\w])(int|double)\s+(\w+)\s*=\s*([^;,]+);', body):
+        if d.group(2) in locs: raise TieError(crel, cline(d.start()), d.group(0), 'local declared twice')
+        locs[d.group(2)] = (d.group(1), d.group(3).strip(), cline(d.start()))
+    fo = re.search(r'\bf\s*=\s*fopen\s*\(', body)
+    if not fo: raise TieError(crel, 0, '', 'the generator no longer opens its output as `f = fopen(…)`')
+    slots = []; pos = body.index(';', fo.end()) + 1
+    while True:
+        st = re.match(r'\s*([^;{}]*(?:\{[^{}]*\}[^;{}]*)*);', body[pos:])        # next statement (an `if (…) { … }` block travels with what follows it)
+        if not st: raise TieError(crel, cline(pos), body[pos:pos + 80], 'statement after the scalar head of xraylib.dat not understood')
+        text = st.group(1).strip(); ln = cline(pos + st.start(1))
+        w = re.fullmatch(r'fwrite\s*\(\s*&\s*(\w+)\s*,\s*sizeof\s*\(\s*(\w+)\s*\)\s*,\s*1\s*,\s*f\s*\)', text)
+        if w:
+            v, ty = w.group(1), w.group(2)
+            if v not in locs: raise TieError(crel, ln, text, 'the written object is not a local of main() with an initialiser')
+            if locs[v][0] != ty: raise TieError(crel, ln, text, 'sizeof(%s) for a local of type %s' % (ty, locs[v][0]))
+            slots.append(dict(var=v, ctype=ty, expr=locs[v][1], line=ln, decl_line=locs[v][2])); pos += st.end(); continue
+        if re.match(r'if\s*\(\s*f\s*==\s*NULL\s*\)', text) and 'fwrite' not in text.split('}')[0]:
+            # `if (f == NULL) { perror(…); }` directly after fopen: the block ends inside this match; go on after it
+            blk = re.match(r'\s*if\s*\([^)]*\)\s*\{[^{}]*\}', body[pos:])
+            if not blk: raise TieError(crel, ln, text, 'error check after fopen not understood')
+            pos += blk.end(); continue
+        if re.match(r'(fwrite|fprintf|fputs|fputc|putc)\b', text): raise TieError(crel, ln, text, 'write into the head of xraylib.dat that is not `fwrite(&local, sizeof(T), 1, f)`')
+        break                                                            # first statement of another kind: the tables begin
+    for sl in slots:
+        # the local still holds its initialiser when it is written: no other assignment, no other use of its address
+        uses = [u for u in re.finditer(r'(?<![\w.>])%s\b' % re.escape(sl['var']), body)]
+        if len(uses) != 2: raise TieError(crel, sl['decl_line'], sl['var'], 'the local written into xraylib.dat is mentioned %d times in main() (expected: its declaration and its fwrite)' % len(uses))
+    if len({sl['var'] for sl in slots}) != len(slots): raise TieError(crel, 0, '', 'one local is written twice into the head of xraylib.dat')
+    # ---- Java side
+    jl = open(os.path.join(repo, jrel)).read().splitlines()
+    start = next((i for i, l in enumerate(jl) if re.search(r'\bvoid\s+XRayInit\s*\(', l)), None)
+    if start is None: raise TieError(jrel, 0, '', 'XRayInit() not found')
+    i = start; order_line = None
+    while i < len(jl) and i < start + 40:
+        if re.search(r'byte_buffer\.order\(\s*ByteOrder\.LITTLE_ENDIAN\s*\)\s*;', jl[i]): order_line = i; break
+        i += 1
+    if order_line is None: raise TieError(jrel, start + 1, jl[start], 'XRayInit() no longer sets the byte order LITTLE_ENDIAN before reading (the generator writes native x86 byte order)')
+    reads = []; i = order_line + 1
+    while i < len(jl):
+        t = re.sub(r'//.*', '', jl[i]).strip(); i += 1
+        if not t: continue
+        r = re.fullmatch(r'(\w+)\s*=\s*byte_buffer\.get(Int|Double)\(\)\s*;', t)
+        if not r: break
+        reads.append(dict(field=r.group(1), jtype='int' if r.group(2) == 'Int' else 'double', line=i))
+    if len({r['field'] for r in reads}) != len(reads): raise TieError(jrel, reads[0]['line'], '', 'a field is read twice from the head of xraylib.dat')
+    dyn = {n: (ty, ln) for n, ty, ln in dynamic}
+    head_lines = {r['line'] for r in reads}
+    for k, l in enumerate(jl, 1):
+        a = re.match(r'\s*(?:Xraylib\.)?(\w+)\s*(?:[-+*/]?=)(?!=)', re.sub(r'//.*', '', l))
+        if a and a.group(1) in dyn and k not in head_lines:
+            raise TieError(jrel, k, l, 'the run-time loaded constant %s is assigned outside the head of XRayInit()' % a.group(1))
+    problems = []
+    for n, (ty, ln) in dyn.items():
+        if n not in {r['field'] for r in reads}:
+            problems.append(dict(field=n, line=ln, file=jrel, found='declared without initialiser and never read from xraylib.dat: stays 0', expected='a value'))
+    feed = []; unevaluated = []
+    for k, r in enumerate(reads):
+        if r['field'] not in dyn:
+            raise TieError(jrel, r['line'], r['field'], 'XRayInit() reads a field from the head of xraylib.dat that is not a `public static int|double` field without initialiser')
+        if dyn[r['field']][0] != r['jtype']:
+            problems.append(dict(field=r['field'], line=r['line'], file=jrel, found='declared %s, read with get%s()' % (dyn[r['field']][0], r['jtype'].capitalize()), expected='the same type'))
+        if k >= len(slots):
+            problems.append(dict(field=r['field'], line=r['line'], file=jrel, found='read as scalar number %d of xraylib.dat, but java/pr_data_java.c writes only %d scalars before the tables' % (k + 1, len(slots)), expected='a scalar written for it'))
+            continue
+        sl = slots[k]
+        if sl['ctype'] != r['jtype']:
+            problems.append(dict(field=r['field'], line=r['line'], file=jrel, found='read with get%s(), java/pr_data_java.c:%d writes sizeof(%s)' % (r['jtype'].capitalize(), sl['line'], sl['ctype']), expected='the same type on both sides'))
+        v = classify_value(sl['expr'], crel, sl['decl_line'])
+        if v[0] == 'ref':
+            if v[1] not in cc: raise TieError(crel, sl['decl_line'], sl['expr'], 'the expression written into xraylib.dat names no constant of the public C headers')
+            e = cc[v[1]]; c = Const(r['field'], e.kind, e.a, e.b, sl['expr'], crel, sl['decl_line'])
+        elif v[0] == 'int': c = Const(r['field'], 'int', v[1], 0, sl['expr'], crel, sl['decl_line'])
+        elif v[0] == 'dec': c = Const(r['field'], 'dec', v[1], v[2], sl['expr'], crel, sl['decl_line'])
+        else:
+            # a composite expression: not evaluated here (the observation of the running class decides); reported as a tie problem, and the
+            # theorem java_dynamic_fields_exact demands that there is none
+            unevaluated.append(dict(field=r['field'], expr=sl['expr'], file=crel, line=sl['decl_line'])); continue
+        if sl['ctype'] == 'int' and c.kind != 'int':
+            problems.append(dict(field=r['field'], line=sl['decl_line'], file=crel, found='`int %s = %s` truncates %s' % (sl['var'], sl['expr'], c.show()), expected='a double slot'))
+        feed.append((c, sl, r))
+    for sl in slots[len(reads):]:
+        problems.append(dict(field='slot ' + sl['expr'], line=sl['line'], file=crel, found='scalar written into the head of xraylib.dat that XRayInit() does not read as a scalar (everything after it is shifted)', expected='one read per scalar'))
+    return dict(slots=slots, reads=reads, feed=feed, problems=problems, unevaluated=unevaluated)
+
+
 # =====================================================================================================
 # IDL
 
